@@ -26,6 +26,12 @@ Definition surviving (tr : list event) : list (Z * nat) := filter (keep (failed 
 Definition outstanding (pre : list event) : list nat :=
   filter (fun t => negb (memb t (failed pre)) && negb (memb t (map snd (took pre)))) (map snd (submitted pre)).
 
+(* [Disable], [Enable] (attribute changes) are neutral for every clause below: a value accepted while the port was enabled
+   and still pending when it is disabled must be written like any other, in order, or its submitter told otherwise.
+   [Discard t] (an entry removed from the queue by anything but the write loop or the overflow rule) is neither a failure
+   nor a take: the ticket stays in [surviving]/[outstanding], so a discarded entry shows up as an order / result / told
+   violation. *)
+
 (* ---- mutual exclusion: scanning the trace, a call starts only when none is in flight *)
 Definition is_rstart (e : event) : bool := match e with ReadStart _ => true | _ => false end.
 Definition is_rend (e : event) : bool := match e with ReadEnd _ _ => true | _ => false end.
